@@ -300,7 +300,7 @@ def main(argv):
             timeout = p.get("timeout_thorough", "120m") if tier == "thorough" else p.get("timeout", "30m")
             log = os.path.join(scratch, "log_%s_%d.txt" % (p["name"], s))
             cmd = [bins[p["name"]], "-test.run", p["run"], "-test.timeout", timeout, "-test.v"]
-            fh = open(log, "w")
+            fh = open(log, "a")  # a shard re-run after a crash keeps the crash's stack
             cwd = os.path.join(REPO, p["pkg"])
             if not os.path.isdir(cwd):
                 cwd = scratch
